@@ -209,3 +209,6 @@ def workload(ctx):
     ctx.floor("key_before_pickling", 1000)
     ctx.floor("consumer_first_hash_failed_and_caught", 20)
     ctx.floor("recipes_whose_hash_differs_between_the_two_processes", 200)
+
+
+RULE = RULE + "  Later additions: persistent keys (or their refusal) of towers 100-450 levels deep; key and / or hash computed before pickling; the consumer's first hash fails and is caught."
